@@ -83,41 +83,10 @@ def val_sibling(ctx):
                 errs.append('the verdict of the continuity check is dropped')
         # .. on every path: whenever the continuity check says Err, the function returns an Err (whatever else it looks at)
         if not errs:
-            vterms = set(drop_lv(it.calls[bb].term) for bb in good)
-
-            def verdict_core(t):
-                """t is the verdict itself, possibly on its way through `?` / map_err / and_then / map (all of which hand an Err on)."""
-                t = drop_lv(t)
-                for _ in range(6):
-                    if t in vterms:
-                        return True
-                    if t[0] == 'call' and call_name(t) in ('branch', 'map_err', 'and_then', 'map', 'into', 'from', 'or_else_ok') and t[2]:
-                        t = drop_lv(t[2][0])
-                        continue
-                    if t[0] == 'field' and t[2] in ('Break.0', 'Err.0'):
-                        t = drop_lv(t[1])
-                        continue
-                    return False
-                return False
-
-            def verr_atom(t):
-                if t[0] == 'discr' and verdict_core(t[1]):
-                    return ('map', 'verr', {True: 1, False: 0})      # Err / Break are variant 1 of Result / ControlFlow
-                if is_call(t, ('is_err', 'is_ok')) and t[2] and verdict_core(t[2][0]):
-                    return 'verr' if call_name(t) == 'is_err' else ('not', 'verr')
-                return discr_atom_of_param(2)(t)
             for v in vs:
-                rc = Reach(facts, vb, Evaluator(facts, bool_atom=verr_atom, assumption={'variant': vn.index(v), 'verr': True}))
-                kinds = set()
-                for rb in [b for b in rc.return_blocks() if b in rc.reachable]:
-                    for t_ in rc.reaching_terms(0, rb):
-                        for a_ in phi_alts(drop_lv(t_)):
-                            if is_variant(a_, 'result::Result', 'Err') or is_call(a_, 'from_residual') or verdict_core(a_):
-                                kinds.add('Err')
-                            else:
-                                kinds.add(fmt(a_, 3))
-                if kinds != {'Err'}:
-                    errs.append('a path of the %s arm returns %s although the continuity check failed' % (v, sorted(kinds - {'Err'})))
+                esc = err_verdict_escapes(facts, vb, it, good, base_atom=discr_atom_of_param(2), assumption={'variant': vn.index(v)})
+                if esc:
+                    errs.append('a path of the %s arm returns %s although the continuity check failed' % (v, esc))
         ctx.check(not errs, inst, vb, 'continuity checked against the gate clock on every path of the dot-carrying arm', errs[0] if errs else '',
                   line=block_line(it, good[0]))
 
@@ -155,7 +124,14 @@ def val_nested(ctx):
             if pa and pa[0] == 2 and pa[1][-1:] == ('Up.op',) and ev and tuple(ev[3]) == ('val',) and param_path(ev[1]) and param_path(ev[1])[1][-1:] == ('Up.key',):
                 good.append(bb)
     used = any(st == it.calls[b].term for b in good for st in subterms(it.ret))
-    ctx.check(bool(good) and used, 'map', vb, 'nested op forwarded to the value stored under op.key', 'Map::validate_op does not forward the nested op to entries[key].val.validate_op')
+    vn_ = variants(facts, 'crdts::map::Op')
+    # every nested verdict counts (the value under the key, or a fresh default when the key is absent)
+    every = [bb for bb, c in it.calls.items() if cinfo(c.cid)['name'] == 'validate_op' and (cinfo(c.cid)['trait'] or '').endswith('CmRDT')
+             and cinfo(c.cid)['self'] is None and len(c.args) == 2 and param_path(c.args[1].val) and param_path(c.args[1].val)[1][-1:] == ('Up.op',)]
+    esc = err_verdict_escapes(facts, vb, it, sorted(set(good) | set(every)), base_atom=discr_atom_of_param(2), assumption={'variant': vn_.index('Up')}) if good and used else []
+    ctx.check(bool(good) and used and not esc, 'map', vb, 'nested op forwarded to the value stored under op.key, its Err always returned',
+              'Map::validate_op does not forward the nested op to entries[key].val.validate_op' if not (good and used) else
+              'Map::validate_op can return %s although the nested value rejected the op' % esc)
 
 
 @rule('VAL-INFALLIBLE', {
@@ -313,7 +289,13 @@ def vm_cond(ctx):
                         inner = rc._reach(fr2[0], {fr2[1]})
                         res[(same, conc)] = (any(b in inner for b in nested), rc.must_pass(nested, start=fr2[0], stops=(fr2[1],)))
             ok = bool(nested) and res.get((True, True), (0, 0))[1] and not any(v[0] for k, v in res.items() if k != (True, True)) and 'bad_conc' not in info
+            if ok:
+                esc = err_verdict_escapes(facts, vb, it, nested, frame=iteration_frame(it, nested[0]))
+                if esc:
+                    ok = False
+                    info['nested_dropped'] = esc[0]
             ctx.check(ok, 'map/nested', vb, 'nested validate_merge exactly for equal keys with concurrent entry clocks',
+                      ('an Err of the nested validate_merge can be dropped: a path leads from it to %s' % info['nested_dropped']) if 'nested_dropped' in info else
                       ('the concurrency test gating the nested check is %s, not a comparison of the two entry clocks' % info['bad_conc']) if 'bad_conc' in info else
                       'Map::validate_merge does not recurse into the values exactly for equal keys with concurrent clocks',
                       details={'(same key, concurrent) -> (nested may, must)': {str(k): v for k, v in res.items()}})
